@@ -41,21 +41,16 @@ def protect (P : Prims) (sa : SAKey) (role : Bool) (r : Rand) (m : Msg) : SAKey 
       | .err => (sa, r1, .err)
       | .fault => (sa, r1, .fault)
       | .ok (data, h1) =>
-        match goTo data (data.length - cl) with
-        | .err => (sa, r1, .err)
-        | .fault => (sa, r1, .fault)
-        | .ok signed =>
-          if data.length < cl then (sa, r1, .fault) else
-          match calcIntegrity P sa role signed with
-          | (sa1, .err) => (sa1, r1, .err)
-          | (sa1, .fault) => (sa1, r1, .fault)
-          | (sa1, .ok checksum) =>
-            if encData.length < cl then (sa1, r1, .fault) else
-            let m2 : Msg := ⟨h1, [.sk next (setTail encData cl checksum)]⟩
-            match encodeMsg m2 with
-            | .err => (sa1, r1, .err)
-            | .fault => (sa1, r1, .fault)
-            | .ok (out, h2) => (sa1, r1, .ok (out, ⟨h2, m2.payloads⟩))
+        if data.length < cl then (sa, r1, .fault) else     -- ikeMsgData[:len-cl]
+        match calcIntegrity P sa role (data.take (data.length - cl)) with
+        | (sa1, .err) => (sa1, r1, .err)
+        | (sa1, .fault) => (sa1, r1, .fault)
+        | (sa1, .ok checksum) =>
+          let m2 : Msg := ⟨h1, [.sk next (setTail encData cl checksum)]⟩
+          match encodeMsg m2 with
+          | .err => (sa1, r1, .err)
+          | .fault => (sa1, r1, .fault)
+          | .ok (out, h2) => (sa1, r1, .ok (out, ⟨h2, m2.payloads⟩))
 
 /-- `EncodeEncrypt` with a nil SA key -/
 def encodePlain (m : Msg) : Res (Bytes × Msg) := do
@@ -68,7 +63,10 @@ def lastSK : List Payload → Option (UInt8 × Bytes) → Res (Option (UInt8 × 
   | .sk n d :: rest, _ => lastSK rest (some (n, d))
   | _ :: _, _ => .err
 
-/-- `decryptMsg`; `log` counts calls of the cipher's Decrypt -/
+/-- `decryptMsg`; the `Nat` counts calls of the cipher's Decrypt.
+The Go slice expressions `EncryptedData[len-cl:]`, `msg[:len(msg)-cl]`,
+`EncryptedData[:len-cl]` are written as guards (`fault` = negative bound) followed
+by `take`/`drop`. -/
 def decryptMsg (P : Prims) (sa : SAKey) (role : Bool) (msg : Bytes) (m : Msg) : SAKey × Nat × Res Msg :=
   match lastSK m.payloads none with
   | .err => (sa, 0, .err)
@@ -77,29 +75,23 @@ def decryptMsg (P : Prims) (sa : SAKey) (role : Bool) (msg : Bytes) (m : Msg) : 
   | .ok (some (next, encData)) =>
     let cl := sa.integInfo.outLen
     if encData.length < cl then (sa, 0, .err) else
-    match goFrom encData (encData.length - cl), goTo msg (msg.length - cl) with
-    | .ok checksum, .ok signed =>
-      if msg.length < cl then (sa, 0, .fault) else
-      match calcIntegrity P sa (!role) signed with
-      | (sa1, .err) => (sa1, 0, .err)
-      | (sa1, .fault) => (sa1, 0, .fault)
-      | (sa1, .ok expect) =>
-        if !(bytesEq checksum expect) then (sa1, 0, .err) else
-        match goTo encData (encData.length - cl) with
-        | .ok ct =>
-          match decryptPayload P sa1 role ct with
-          | .err => (sa1, 1, .err)
-          | .fault => (sa1, 1, .fault)
-          | .ok plain =>
-            match decodeChain next plain with
-            | .err => (sa1, 1, .err)
-            | .fault => (sa1, 1, .fault)
-            | .ok ps => (sa1, 1, .ok ⟨m.hdr, ps⟩)
-        | .err => (sa1, 0, .err)
-        | .fault => (sa1, 0, .fault)
-    | .fault, _ => (sa, 0, .fault)
-    | _, .fault => (sa, 0, .fault)
-    | _, _ => (sa, 0, .err)
+    if msg.length < cl then (sa, 0, .fault) else
+    let checksum := encData.drop (encData.length - cl)
+    let signed := msg.take (msg.length - cl)
+    match calcIntegrity P sa (!role) signed with
+    | (sa1, .err) => (sa1, 0, .err)
+    | (sa1, .fault) => (sa1, 0, .fault)
+    | (sa1, .ok expect) =>
+      if !(bytesEq checksum expect) then (sa1, 0, .err) else
+      let ct := encData.take (encData.length - cl)
+      match decryptPayload P sa1 role ct with
+      | .err => (sa1, 1, .err)
+      | .fault => (sa1, 1, .fault)
+      | .ok plain =>
+        match decodeChain next plain with
+        | .err => (sa1, 1, .err)
+        | .fault => (sa1, 1, .fault)
+        | .ok ps => (sa1, 1, .ok ⟨m.hdr, ps⟩)
 
 /-- `DecodeDecrypt(msg, ikeHeader, ikesaKey, role)`; `hdr = none` ⇔ nil header,
 `sa = none` ⇔ nil key.  Second component: number of cipher Decrypt calls. -/
